@@ -226,7 +226,7 @@ def run(ck):
             continue
         seen_f.add(name)
         ck.report(dict(input=cases[ci]["line"], implementation=outs[ci][:4000]), oracle=name, key="cellcycle:" + name, what=what)
-    if broken and not fails:
+    if broken and not ck.violations:
         ci, what, q, mo, exp = broken[0]
         ck.report(dict(input=cases[ci]["line"], model_query=q, model=mo, implementation=[hx(e) if isinstance(e, float) else e for e in exp], n_disagreements=len(broken)),
                   unchecked="correspondence CellCycle.%s(NumF) = implementation" % what.split("(")[0],
